@@ -7,6 +7,7 @@
  C08.c  units: the centre of dimension d is (lb_d + ub_d)/2 of the same d and is scaled with the range (total.lb_d, total.ub_d) of
         the same d; the zero-extent widening is an exact-equality test on lb/ub of the same axis, for both axes, widening the upper end.
  C08.d  clamp: both clips (<0 -> 0, >n-1 -> n-1) dominate the return of the scaling helper, and the truncation is to a 64-bit integer.
+ C08.k  bit interleave (small-scope): every bit of both grid coordinates reaches the distance, p up to 31.
  C08.e  delegation: GeoSeries.hilbert_distance passes total_bounds and p through and keeps the index.
 Does not decide: the curve itself (C07), floating-point scaling exactness.
 """
@@ -33,6 +34,100 @@ def _is_half(f, name):
     """`name` is the number of dimensions: <rows>.shape[1] // 2."""
     g, d = astq.unique_def(f, name)
     return isinstance(d, ast.AST) and norm(d).endswith('.shape[1] // 2')
+
+
+def data2coord_small_scope(P, R, d2c):
+    """C08.d (exhaustive within the scope): the scaling helper is interpreted by E-VEC on vectors over {NaN, below, lower end, interior points, upper end, above}
+    for ranges (0,4), (-4,4), (-8,-2) and grids of 1, 2, 4, 8 cells: a finite value lands in cell trunc((v - lo) * n / width) clamped to [0, n-1], and a NaN
+    (the centre of a missing or empty element) lands in cell 0 - whatever the helper is written like."""
+    import veceval
+    R.assume('S13: converting NaN / +-inf to int64 gives the most negative integer (numpy on the supported platforms)')
+    nan = float('nan')
+    bad, total, undec = [], 0, None
+    for lo, hi in ((0.0, 4.0), (-4.0, 4.0), (-8.0, -2.0)):
+        w = hi - lo
+        vals = [nan, lo - 1.0, lo, lo + w / 8, lo + w / 4, lo + w / 2, lo + 3 * w / 4, hi - w / 16, hi, hi + 1.0, 0.0]
+        for n in (1, 2, 4, 8):
+            total += 1
+            env = dict(zip(d2c.params, (list(vals), (lo, hi), n)))
+            ev = veceval.VecEval(P, d2c, env, len(vals))
+            try:
+                ev.block(d2c.node.body)
+                got = None
+            except veceval.Returned as r_:
+                got = r_.value
+            except veceval.Unsupported as e_:
+                undec = str(e_)
+                break
+            except (IndexError, TypeError, ValueError, ZeroDivisionError, OverflowError) as e_:
+                got = f'error {type(e_).__name__}'
+            want = []
+            for v in vals:
+                if v != v:
+                    want.append(0)
+                else:
+                    want.append(min(max(int((v - lo) * (n / w)), 0), n - 1))
+            if not (isinstance(got, list) and [int(x) if isinstance(x, (int, float)) and x == x else x for x in got] == want):
+                bad.append({'range': (lo, hi), 'cells': n, 'values': [None if v != v else v for v in vals], 'cells returned': got if not isinstance(got, list) else [x for x in got], 'wanted': want})
+        if undec:
+            break
+    if undec:
+        R.abstain('C08.d', d2c, None, f'the scaling helper uses a construct the small-scope evaluator does not model ({undec})', construct='_data2coord small-scope')
+        return
+    R.count('typed_ops', total)
+    R.exhaustive_sites['C08.d _data2coord: 11 values x 3 ranges x grids of 1, 2, 4, 8 cells'] = True
+    R.check(not bad, 'C08.d', d2c, None, f'values are scaled, truncated and clamped to the grid; NaN (missing / empty elements) lands in cell 0 ({total} range x grid combinations)',
+            f'the scaling helper differs from scale-truncate-clamp on {len(bad)} of {total} combinations, e.g. {bad[:1]}', construct='_data2coord small-scope', counterexamples=bad[:4])
+
+
+def interleave_small_scope(P, R):
+    """C08.k (exhaustive within the scope): the step that turns the per-dimension grid coordinates into ONE integer interleaves all p bits of every coordinate:
+    bit b of coordinate j lands at position n*b + (n-1-j).  Interpreted by E-VEC for n = 2, p in {1, 2, 3, 8, 15, 16, 17, 20, 24, 31}: every one-hot coordinate
+    pair, all-ones and a mixed pattern.  A bit that is dropped or misplaced (a narrower fast path, masks sized for 16 bits) makes distances collide or
+    leave the curve order for large p only.  Decides bit positions, not the geometry of the curve (C07)."""
+    import veceval
+    f = P.mods['spatialpandas.spatialindex.hilbert_curve'].funcs.get('_transpose_to_hilbert_integer')
+    if f is None or len(f.params) != 2:
+        R.abstain('C08.k', ('spatialpandas/spatialindex/hilbert_curve.py', '_transpose_to_hilbert_integer'), None, 'the transpose-to-integer step is not a function (p, coord) of the curve module')
+        return
+    bad, total, undec = [], 0, None
+    n = 2
+    for p_ in (1, 2, 3, 8, 15, 16, 17, 20, 24, 31):
+        pats = [[0, 0], [2 ** p_ - 1, 2 ** p_ - 1], [2 ** p_ - 1, 0], [0, 2 ** p_ - 1]]
+        for b in range(p_):
+            pats += [[1 << b, 0], [0, 1 << b], [1 << b, 1 << (p_ - 1 - b)]]
+        mixed = sum(1 << b for b in range(0, p_, 2))
+        pats.append([mixed, (2 ** p_ - 1) ^ mixed])
+        for co in pats:
+            total += 1
+            ev = veceval.VecEval(P, f, {f.params[0]: p_, f.params[1]: veceval.PyList(co)}, 0)
+            try:
+                ev.block(f.node.body)
+                got = None
+            except veceval.Returned as r_:
+                got = r_.value
+            except veceval.Unsupported as e_:
+                undec = str(e_)
+                break
+            except (IndexError, TypeError, ValueError, ZeroDivisionError, OverflowError) as e_:
+                got = f'error {type(e_).__name__}'
+            want = 0
+            for j, v in enumerate(co):
+                for b in range(p_):
+                    if (v >> b) & 1:
+                        want |= 1 << (n * b + (n - 1 - j))
+            if got != want:
+                bad.append({'p': p_, 'coordinates': [hex(x) for x in co], 'integer returned': hex(got) if isinstance(got, int) else str(got), 'wanted': hex(want)})
+        if undec:
+            break
+    if undec:
+        R.abstain('C08.k', f, None, f'the transpose-to-integer step uses a construct the small-scope evaluator does not model ({undec})', construct='bit interleave small-scope')
+        return
+    R.count('typed_ops', total)
+    R.exhaustive_sites['C08.k bit interleave: n = 2, p in {1,2,3,8,15,16,17,20,24,31}, one-hot / all-ones / alternating coordinates'] = True
+    R.check(not bad, 'C08.k', f, None, f'all p bits of both coordinates are interleaved into the distance, for p up to 31 ({total} coordinate pairs)',
+            f'the distance does not carry every bit of the coordinates on {len(bad)} of {total} coordinate pairs, e.g. {bad[:2]}: for such p, different cells share a distance / '
+            'the order along the curve is lost', construct='bit interleave small-scope', counterexamples=bad[:4])
 
 
 def run(P, R, tier):
@@ -225,6 +320,8 @@ def run(P, R, tier):
             construct='degenerate extent widened on the path to the scaling')
 
     # ---------------------------------------------------------------- C08.d
+    data2coord_small_scope(P, R, d2c)
+    interleave_small_scope(P, R)
     C = cfgmod.build(d2c.node)
     rets = [s for s in walk_own(d2c.node) if isinstance(s, ast.Return)]
     resname = norm(rets[0].value) if rets else None
